@@ -88,6 +88,22 @@ try:
         if hasattr(conf, "no_such_option"):
             fail(violation="an unknown option name became a setting", source=src)
 
+    # every spelling of a boolean the configuration-file format accepts (ConfigParser: 1/yes/true/on, 0/no/false/off, any case), for options
+    # whose default is the other value; an unparsable file must not be dropped silently either: the other options of the same file still load
+    for name in ("obfuscate", "offline", "auto_update", "gpg"):
+        default = DEFAULT_OPTS[name]["default"]
+        spell = ("0", "no", "false", "off", "No", "FALSE", "Off") if default else ("1", "yes", "true", "on", "Yes", "TRUE", "On")
+        for sp in spell:
+            try:
+                conf = load({name: sp, "retries": "4"}, {}, [])
+            except ValueError as ex:
+                fail(violation="a plain option assignment was rejected", option=name, file=sp, exc=repr(ex))
+            n += 1
+            if getattr(conf, name) is not (not default) or conf.retries != 4:
+                fail(violation="option does not take the value given in the configuration file", option=name, file={name: sp, "retries": "4"},
+                     got={name: getattr(conf, name), "retries": conf.retries}, want={name: not default, "retries": 4})
+            if name == "offline" and (not conf.no_upload or conf.auto_update):
+                fail(violation="offline (from the file) without its implied settings", spelling=sp, no_upload=conf.no_upload, auto_update=conf.auto_update)
     # ---- (2) consistency
     REQUESTS = ["--status", "--test-connection", "--checkin", "--unregister", "--diagnosis"]
     combos = [[]] + [[r] for r in REQUESTS] + [["--output-dir", os.path.join(tmp, "out")], ["--output-file", os.path.join(tmp, "out.tar.gz")]]
